@@ -83,12 +83,13 @@ class FakeRM(object):
 
 FAKE_MPIRUN = r'''#!/bin/bash
 # fake mpirun: "-np N", "-host LIST" then the command; every rank gets PMIX_RANK
-if test "$1" = "-V"; then echo "mpirun (Open MPI) 4.1.0"; exit 0; fi
+if test "$1" = "-V"; then echo "@VERSION@"; exit 0; fi
 np=1
 while test $# -gt 0; do
     case "$1" in
         -np)   np=$2; shift 2;;
         -host) echo "$2" > c10.mpirun.hosts; shift 2;;
+        -gpu)  shift;;
         -*)    echo "fake mpirun: unknown option $1" 1>&2; exit 99;;
         *)     break;;
     esac
@@ -180,7 +181,10 @@ class Engine(object):
         os.makedirs(root + '/case/dump')
         os.makedirs(root + '/case/io')
         os.makedirs(root + '/elsewhere')
-        for name, text in (('mpirun', FAKE_MPIRUN), ('sleep', FAKE_SLEEP)):
+        # the MPI flavour the launch method detects differs per layout: Open MPI / IBM Spectrum MPI
+        # (Open MPI based: the ranks get PMIX_RANK, too) / Open MPI
+        version = {1: 'mpirun (IBM Spectrum MPI) 10.4.0.03rtm4'}.get(layout, 'mpirun (Open MPI) 4.1.0')
+        for name, text in (('mpirun', FAKE_MPIRUN.replace('@VERSION@', version)), ('sleep', FAKE_SLEEP)):
             with open('%s/fakebin/%s' % (psbox, name), 'w') as f:
                 f.write(text)
             os.chmod('%s/fakebin/%s' % (psbox, name), 0o755)
